@@ -189,8 +189,71 @@ pub fn cmd_grace(a: &[&str]) -> String {
     }
 }
 
-pub fn cmd_poller(_a: &[&str]) -> String {
-    "unimplemented".into()
+struct MockOps {
+    tracking: Option<Tracking>,
+    grace: bool,
+    reads_before_query: Rc<RefCell<Vec<usize>>>,
+}
+
+impl vp::ChronyOps for MockOps {
+    fn get_tracking(&mut self) -> Option<Tracking> {
+        let n = VCLOCK.with(|v| v.borrow().reads.len());
+        self.reads_before_query.borrow_mut().push(n);
+        self.tracking.clone()
+    }
+    fn is_within_grace_period(&self) -> bool {
+        self.grace
+    }
+}
+
+/// poller <tracking_some 0|1> <grace 0|1> <phc_cfg 0|1> <cfg_refid> <tracking_refid> <ok:VALUE|missing>
+/// runs exactly one iteration of the REAL poller loop and prints what reached the ShmWriter mailbox
+pub fn cmd_poller(a: &[&str]) -> String {
+    use clock_bound_d::channels::new_channel_web;
+    use clock_bound_d::thread_manager::Context;
+    use clock_bound_d::{ChannelId, Message, PhcInfo};
+    if a.len() < 6 {
+        return "usage".into();
+    }
+    let some = a[0] == "1";
+    let grace = a[1] == "1";
+    let cfg = a[2] == "1";
+    let cfg_refid: u32 = a[3].parse().unwrap_or(0);
+    let t_refid: u32 = a[4].parse().unwrap_or(0);
+    let path = crate::seg::tmp_path("phc");
+    if let Some(v) = a[5].strip_prefix("ok:") {
+        std::fs::write(&path, format!("{}\n", v)).ok();
+    }
+    let phc_info = if cfg { Some(PhcInfo { refid: cfg_refid, sysfs_error_bound_path: std::path::PathBuf::from(&path) }) } else { None };
+    let (mut mbox, dbox) = new_channel_web(vec![ChannelId::ClockErrorBoundPoller, ChannelId::ShmWriter]);
+    let shm_mailbox = mbox.get_mailbox(&ChannelId::ShmWriter).unwrap();
+    let my = mbox.get_mailbox(&ChannelId::ClockErrorBoundPoller).unwrap();
+    let _ = dbox.send(&ChannelId::ClockErrorBoundPoller, Message::ThreadAbort);
+    let ctx = Context { mbox: my, dbox, channel_id: ChannelId::ClockErrorBoundPoller };
+    let reads = Rc::new(RefCell::new(Vec::new()));
+    let t = if some { Some(tracking(0.0, 0.0, 0.0, 1.0, 0, ref_time_for_age(1000), t_refid)) } else { None };
+    let ops = MockOps { tracking: t, grace, reads_before_query: reads.clone() };
+    set_clock(BASE_SECS as i128 * 1_000_000_000, 123_000_000_456);
+    let res = std::panic::catch_unwind(std::panic::AssertUnwindSafe(|| vp::run_poller(ctx, ops, phc_info, Duration::from_millis(1))));
+    let clock_reads = clock_off();
+    let _ = std::fs::remove_file(&path);
+    let mut msgs = Vec::new();
+    while let Ok(m) = shm_mailbox.try_recv() {
+        msgs.push(match m {
+            Message::ClockErrorBoundData((t, phc, asof)) => format!("ClockErrorBoundData:refid={}:phc={}:asof={}.{}", t.ref_id, phc, asof.tv_sec, asof.tv_nsec),
+            Message::ChronyNotRespondingGracePeriod => "ChronyNotRespondingGracePeriod".to_string(),
+            Message::ChronyNotResponding => "ChronyNotResponding".to_string(),
+            Message::PhcErrorBoundRetrievalFailedGracePeriod => "PhcErrorBoundRetrievalFailedGracePeriod".to_string(),
+            Message::PhcErrorBoundRetrievalFailed => "PhcErrorBoundRetrievalFailed".to_string(),
+            other => format!("other:{:?}", other).replace(' ', "_"),
+        });
+    }
+    let rb: Vec<String> = reads.borrow().iter().map(|x| x.to_string()).collect();
+    let cr: Vec<String> = clock_reads.iter().map(|x| x.to_string()).collect();
+    match res {
+        Ok(()) => format!("ok n={} msgs={} clock_ids={} clock_reads_before_query={}", msgs.len(), msgs.join("|"), cr.join(","), rb.join(",")),
+        Err(p) => format!("panic {} msgs={}", crate::panic_msg(&p), msgs.join("|")),
+    }
 }
 
 pub fn cmd_e2e(_a: &[&str]) -> String {
